@@ -12,6 +12,7 @@ import (
 	"fmt"
 	"math"
 	"math/big"
+	"reflect"
 	"strings"
 
 	"github.com/kstenerud/go-concise-encoding/builder"
@@ -419,8 +420,137 @@ func runC19(c *fw.Ctx, idx int) {
 				sig := fmt.Sprintf("inexact:%s->%s@%s", delivered.K.String(), dst.Class, region)
 				c.Fail(sig, detail(map[string]interface{}{"stored": s.String(), "stored_go": c19GoString(o.Obj)}))
 			}
+			// The same value reaching the destination through a local reference: {"a"=&x:V "b"=$x} into struct{A holder; B dst}.
+			// The marked value is first built into A, then converted from A's Go value into B (a separate conversion path).
+			if um != nil && delivered.K != ev.ERR && v.Class == c19Finite && !v.NegZero {
+				c19ViaReference(c, cfg, um, route, f, v, vs, delivered)
+			}
 		}
 	}
+}
+
+var c19Holders = []c19Dst{{"uint64", "uint", uint64(0)}, {"int64", "int", int64(0)}, {"float64", "float", float64(0)}, {"*big.Int", "bigint", (*big.Int)(nil)},
+	{"*big.Float", "bigfloat", (*big.Float)(nil)}, {"interface{}", "any", nil}, {"uint8", "uint", uint8(0)}, {"int16", "int", int16(0)}}
+
+var c19RefTypes = map[[2]int]reflect.Type{}
+
+func c19ViaReference(c *fw.Ctx, cfg *configuration.Configuration, um ce.Unmarshaler, route string, f c19Form, v c19Val, vs string, delivered ev.Event) {
+	var doc []byte
+	if route == "cbe" {
+		doc = append([]byte{0x81, 0x00, 0x99, 0x81, 'a', 0x7f, 0xf0, 0x01, 'x'}, f.Doc[2:]...)
+		doc = append(doc, 0x81, 'b', 0x77, 0x01, 'x', 0x9b)
+	} else {
+		doc = []byte("c0\n{\"a\"=&x:" + string(f.Doc[3:]) + " \"b\"=$x}")
+	}
+	for rep := 0; rep < 2; rep++ {
+		hi := c.Rng.Intn(len(c19Holders))
+		h := c19Holders[hi]
+		for di, dst := range c19Dsts {
+			t, ok := c19RefTypes[[2]int{hi, di}]
+			if !ok {
+				at := reflect.TypeOf((*interface{})(nil)).Elem()
+				if h.Template != nil {
+					at = reflect.TypeOf(h.Template)
+				}
+				t = reflect.StructOf([]reflect.StructField{{Name: "A", Type: at}, {Name: "B", Type: reflect.TypeOf(dst.Template)}})
+				c19RefTypes[[2]int{hi, di}] = t
+			}
+			o := c19ViaDoc(route, cfg, um, reflect.New(t).Elem().Interface(), doc)
+			c.Eval()
+			c.Inc("route." + route + "-via-reference")
+			c.Inc("holder." + h.Name)
+			detail := func(extra map[string]interface{}) map[string]interface{} {
+				m := map[string]interface{}{"value": vs, "form": f.Name, "doc": short(hexs(doc), 300), "text": short(string(doc), 200), "route": route + "-via-reference",
+					"holder": h.Name, "dst": dst.Name, "delivered": delivered.String()}
+				for k, x := range extra {
+					m[k] = x
+				}
+				return m
+			}
+			if o.Escaped != nil {
+				c.Fail("escaped-panic:"+route+"-via-reference", detail(map[string]interface{}{"panic": ev.PanicString(o.Escaped), "stack": o.Stack}))
+				continue
+			}
+			if o.Err != "" {
+				c.Inc("outcome.via-reference.error")
+				continue
+			}
+			rv := reflect.ValueOf(o.Obj)
+			for rv.Kind() == reflect.Ptr || rv.Kind() == reflect.Interface {
+				rv = rv.Elem()
+			}
+			if rv.Kind() != reflect.Struct {
+				c.Fail("nothing-stored-via-reference", detail(map[string]interface{}{"got": fmt.Sprintf("%T", o.Obj)}))
+				continue
+			}
+			// the reference converts A's Go value (which may itself be a permitted rounding of V, e.g. a decimal in a float64):
+			// B must hold exactly what A holds, or the unmarshal must fail
+			var held interface{} = rv.Field(0).Interface()
+			v, okA := c19StoredAny(held)
+			if !okA {
+				c.Inc("dontcare.holder-value-not-a-finite-number")
+				continue
+			}
+			if dst.Class == "float" && !c19HeldAsInteger(held) {
+				// like a float event into a float destination on the direct route (rounding between float formats is not judged)
+				c.Inc("dontcare.float-dst-from-float-holder-via-reference")
+				continue
+			}
+			sB, kind, okB := c19Stored(rv.Field(1).Interface())
+			if !okB {
+				c.Fail("nothing-stored-via-reference:"+dst.Class, detail(map[string]interface{}{"got": kind}))
+				continue
+			}
+			c.Inc("judged")
+			c.Inc("judged.via-reference")
+			if c19SameValue(v, sB) {
+				c.Inc("outcome.via-reference.exact")
+				continue
+			}
+			region := c19Region(v, sB, dst, rv.Field(1).Interface(), delivered)
+			c.Fail(fmt.Sprintf("inexact-via-reference:%s->%s@%s", h.Name, dst.Class, region), detail(map[string]interface{}{"stored": sB.String(), "stored_go": c19GoString(rv.Field(1).Interface()),
+				"holder_value": c19GoString(rv.Field(0).Interface())}))
+		}
+	}
+}
+
+// c19HeldAsInteger: the holder's Go value is of an integer kind (it reaches the destination like an integer event).
+func c19HeldAsInteger(obj interface{}) bool {
+	switch obj.(type) {
+	case int, int8, int16, int32, int64, uint, uint8, uint16, uint32, uint64, *big.Int, big.Int:
+		return true
+	}
+	return false
+}
+
+// c19StoredAny reads the finite number held by a holder field of any numeric Go kind (also inside an interface).
+func c19StoredAny(obj interface{}) (c19Val, bool) {
+	rv := reflect.ValueOf(obj)
+	for rv.IsValid() && (rv.Kind() == reflect.Interface || rv.Kind() == reflect.Ptr && rv.Type() != reflect.TypeOf((*big.Int)(nil)) && rv.Type() != reflect.TypeOf((*big.Float)(nil))) {
+		if rv.IsNil() {
+			return c19Val{}, false
+		}
+		rv = rv.Elem()
+	}
+	if !rv.IsValid() {
+		return c19Val{}, false
+	}
+	switch rv.Kind() {
+	case reflect.Int, reflect.Int8, reflect.Int16, reflect.Int32, reflect.Int64:
+		return c19Int64(rv.Int()), true
+	case reflect.Uint, reflect.Uint8, reflect.Uint16, reflect.Uint32, reflect.Uint64:
+		return c19Int(new(big.Int).SetUint64(rv.Uint())), true
+	case reflect.Float32, reflect.Float64:
+		f := rv.Float()
+		if math.IsNaN(f) || math.IsInf(f, 0) || f == 0 && math.Signbit(f) {
+			return c19Val{}, false
+		}
+		return c19FloatVal(f), true
+	}
+	if s, _, ok := c19Stored(rv.Interface()); ok && s.Class == c19Finite && !s.NegZero {
+		return s, true
+	}
+	return c19Val{}, false
 }
 
 func c19GoString(obj interface{}) string {
